@@ -6,7 +6,7 @@
 (* observation; a formula that is false is PRINTED (not halted on), so one *)
 (* TLC run judges the whole batch.  Verdicts are TLC's.                    *)
 (*                                                                         *)
-(* observation = [g |-> <<<<ref, <<req,...>>>>, ...>>,                     *)
+(* observation = [g |-> <<<<ref, <<req,...>>, join>>, ...>>,               *)
 (*                created |-> BOOLEAN,   \* Workflow.create returned       *)
 (*                kind    |-> STRING,    \* defect named by the error      *)
 (*                sorted  |-> BOOLEAN,   \* topological_sort returned      *)
@@ -25,7 +25,7 @@ Step == i < N /\ i' = i + 1
 Next == Step
 
 SeqToSet(s) == {s[k] : k \in 1..Len(s)}
-GraphOf(o)  == [k \in 1..Len(o.g) |-> [ref |-> o.g[k][1], reqs |-> SeqToSet(o.g[k][2])]]
+GraphOf(o)  == [k \in 1..Len(o.g) |-> [ref |-> o.g[k][1], reqs |-> SeqToSet(o.g[k][2]), join |-> o.g[k][3]]]
 LayersOf(o) == [k \in 1..Len(o.layers) |-> SeqToSet(o.layers[k])]
 
 \* ---- the property (a false one is a VIOLATION) --------------------------
